@@ -253,27 +253,7 @@ def job_apply(n, boxtype, flags, seed, ellipsoid=False):
     return obs
 
 
-def assigned_names(node):
-    """names of variables assigned somewhere inside an AST subtree (=, compound assignment, overloaded +=, ++/--)"""
-    out = set()
-    for n in rvc.walk(node):
-        k = n.get('kind')
-        tgt = None
-        if k in ('BinaryOperator', 'CompoundAssignOperator') and n.get('opcode', '').endswith('=') and n.get('opcode') not in ('==', '!=', '<=', '>='):
-            tgt = n['inner'][0]
-        elif k == 'CXXOperatorCallExpr' and len(n.get('inner', [])) == 3:
-            cal = n['inner'][0]
-            while cal.get('kind') in rvc.TRANSPARENT:
-                cal = cal['inner'][0]
-            if cal.get('kind') == 'DeclRefExpr' and cal['referencedDecl']['name'] in ('operator=', 'operator+=', 'operator-=', 'operator*=', 'operator/='):
-                tgt = n['inner'][1]
-        elif k == 'UnaryOperator' and n.get('opcode') in ('++', '--'):
-            tgt = n['inner'][0]
-        while tgt is not None and tgt.get('kind') in rvc.TRANSPARENT:
-            tgt = tgt['inner'][0]
-        if tgt is not None and tgt.get('kind') == 'DeclRefExpr':
-            out.add(tgt['referencedDecl']['name'])
-    return out
+assigned_names = rvc.assigned_names
 
 
 def job_apply_inductive(boxtype, seed):
